@@ -103,6 +103,7 @@ def install(R):
     R.inline.add(PR + "_str_2_tuple")
     R.add(PR + "parse_fn_args", result="V", props=["C02", "C03"],
           ensures=[("sequence", "is_seq(result)"),
+                   ("every_parameter_of_the_signature_in_order", "implies(fn_args is None, result == tuple(inspect.signature(fn).parameters))"),
                    ("given_names", "implies(fn_args is not None and isinstance(fn_args, str), slen(result) == 1 and sget(result, 0) == fn_args)"),
                    ("given_sequence", "implies(fn_args is not None and not isinstance(fn_args, str) and is_seq(fn_args), "
                                       "slen(result) == slen(fn_args) and forall(lambda k: implies(0 <= k and k < slen(result), sget(result, k) == sget(fn_args, k))))")],
